@@ -83,7 +83,7 @@ fn pfx_entry(r: &Result<(), TErr>, rec: &Rec) -> String {
 }
 
 /// Ops of the `faults.prefix` stream: ops of the other streams of the kinds the error-aware model covers (styled
-/// rectangle / circle / ellipse / rounded rectangle, whitespace, pixel, pixel iterator, clear), prefixed with
+/// rectangle / circle / ellipse / rounded rectangle, whitespace, image, pixel, pixel iterator, clear), prefixed with
 /// `faults.prefix`. Has its own generator state, so the ops of the other streams do not depend on it.
 fn gen_prefix(tier: Tier, rng: &mut Rng, emit: &mut dyn FnMut(String)) {
     let quick = tier == Tier::Quick;
@@ -133,6 +133,18 @@ fn gen_prefix(tier: Tier, rng: &mut Rng, emit: &mut dyn FnMut(String)) {
                         continue;
                     }
                     emit(format!("faults.prefix faults.whitespace {} {} {} {} {} {}", font, mask, bl, width, wi % 6, (wi / 6) % 2));
+                }
+            }
+        }
+    }
+    // images: `fill_contiguous` (the two arms of `Clipped::fill_contiguous`, the cropping colour iterator) / `draw_iter` for sub-images
+    for bits in [1, 8, 16] {
+        for (w, h) in [(0, 0), (1, 1), (5, 3), (8, 2), (9, 4), (40, 30)] {
+            for sub in 0..3 {
+                for adapter in 0..6 {
+                    for native in 0..2 {
+                        emit(format!("faults.prefix faults.image {} {} {} {} {} {}", bits, w, h, sub, adapter, native));
+                    }
                 }
             }
         }
@@ -228,7 +240,10 @@ impl Module for M {
          mono_text_style.rs draw_whitespace -> fill_solid, draw_whitespace -> draw_decorations, draw_decorations -> fill_solid x2), \
          faults.clear (clear through every adapter stack, with and without color_converted on top, on both targets: translated.rs \
          clear -> clear, color_converted.rs clear -> clear, core/src/draw_target/mod.rs clear -> fill_solid [the trait default of the \
-         draw_iter-only target, of Clipped and of Cropped]). Non-trivial: the fault-free run makes at least 2 calls; distinct = op text."
+         draw_iter-only target, of Clipped and of Cropped]). faults.prefix: ops of the kinds the error-aware target model covers (styled \
+         rectangle / circle / ellipse / rounded rectangle, whitespace, images, pixel, pixel iterator, clear) whose result line also carries draw's \
+         result and the root's record (calls, calls after error, log length, log digest) of the fault-free run and of fault positions 0, n/2, n-1. \
+         Non-trivial: the fault-free run makes at least 2 calls; distinct = op text."
     }
 
     fn generate(&self, _pid: &str, tier: Tier, rng: &mut Rng, emit: &mut dyn FnMut(String)) {
